@@ -63,8 +63,9 @@ def r05a(chk, rid='R05.a'):
             for x in ast.walk(st):
                 if isinstance(x, (ast.Assign, ast.AugAssign)):
                     for t in (x.targets if isinstance(x, ast.Assign) else [x.target]):
-                        if isinstance(t, ast.Name):
-                            names.add(t.id)
+                        for tn in ([t] if not isinstance(t, (ast.Tuple, ast.List)) else t.elts):
+                            if isinstance(tn, ast.Name):
+                                names.add(tn.id)
         need = {'col'} if text(p.stmt) == 'pos += 1' else {'col', 'line'}
         chk.ob(rid, TOK, 'Tokenizer.tokenize', f'`{text(p.stmt)}`: {sorted(need)} updated in the same block',
                need <= names, f'only {sorted(names & {"line", "col"})} are updated beside the position')
